@@ -162,7 +162,7 @@ func vxC13DrawOutcome(t *rapid.T, spec vxC13Spec, allowNoReply bool, first bool)
 	if first && rapid.IntRange(0, 2).Draw(t, "first_fails") != 2 {
 		allowNoReply = false
 	}
-	kinds := []string{"err", "err", "err", "err", "err", "err", "err", "err", "err", "ok", "ok", "close"}
+	kinds := []string{"err", "err", "err", "err", "err", "err", "err", "err", "ok", "ok", "close", "close"}
 	if allowNoReply {
 		kinds = append(kinds, "noreply")
 	}
@@ -201,7 +201,7 @@ func vxC13DrawOutcome(t *rapid.T, spec vxC13Spec, allowNoReply bool, first bool)
 func vxC13Draw(t *rapid.T, forceSpec bool) *vxC13Case {
 	c := &vxC13Case{}
 	c.Proto = rapid.SampledFrom([]int{4, 3, 4, 5, 3, 2, 4}).Draw(t, "proto")
-	c.NHosts = rapid.SampledFrom([]int{3, 2, 4, 3, 2, 4, 1, 3}).Draw(t, "nhosts")
+	c.NHosts = rapid.SampledFrom([]int{3, 2, 4, 1, 2, 4, 1, 3}).Draw(t, "nhosts")
 	c.NumConns = rapid.SampledFrom([]int{1, 2, 1}).Draw(t, "numconns")
 	for i := 0; i < c.NHosts; i++ {
 		c.HostState = append(c.HostState, rapid.SampledFrom([]string{"up", "up", "up", "up", "up", "up", "up", "up", "down", "nopool"}).Draw(t, "hoststate"))
@@ -264,7 +264,7 @@ func vxC13Draw(t *rapid.T, forceSpec bool) *vxC13Case {
 		m := rapid.SampledFrom([]int{4, 3, 5, 2, 6, 4, 1, 7, 0}).Draw(t, "ntypes")
 		c.Policy.Types = []int{}
 		for i := 0; i < m; i++ {
-			c.Policy.Types = append(c.Policy.Types, rapid.SampledFrom([]int{1, 0, 1, 0, 1, 0, 2, 3, 4, 9, 0xffff}).Draw(t, "rtype"))
+			c.Policy.Types = append(c.Policy.Types, rapid.SampledFrom([]int{1, 0, 1, 0, 0, 0, 2, 3, 4, 9, 0xffff}).Draw(t, "rtype"))
 		}
 	}
 	c.Batch = rapid.IntRange(0, 2).Draw(t, "batch") == 2
